@@ -385,7 +385,7 @@ Section Schedule.
   Lemma rt_tick_due_retransmit : forall k c, Z.of_nat c < mx ->
     rt_tick (rt_sched_due k c) =
     (rt_sched_waiting k (S c),
-     [RoTx (rt_sched_time (S c)) u s b;
+     [RoTx (rt_sched_time (S c)) u s b (Z.of_nat (S c)) T;
       RoWait (rt_sched_time (S c)) (T * 2 ^ Z.of_nat (S c)) (rt_sched_time (S (S c)))]).
   Proof.
     intros k c Hc. unfold rt_tick, rt_fire_all.
@@ -433,7 +433,7 @@ Section Schedule.
     match left with
     | O => [RoNack (rt_sched_time (S c)) u s rt_NACK_TOO_MANY_RETRIES m mx mx;
             RoWait (rt_sched_time (S c)) 0 (-1)]
-    | S l => [RoTx (rt_sched_time (S c)) u s b;
+    | S l => [RoTx (rt_sched_time (S c)) u s b (Z.of_nat (S c)) T;
               RoWait (rt_sched_time (S c)) (T * 2 ^ Z.of_nat (S c)) (rt_sched_time (S (S c)))]
              ++ rt_sched_from l (S c)
     end.
@@ -478,12 +478,12 @@ Section Schedule.
 
   (* the transmissions and handler calls among those outputs *)
   Definition rt_is_tx_nack (o : rt_out) : bool :=
-    match o with RoTx _ _ _ _ => true | RoNack _ _ _ _ _ _ _ => true | RoNackNoPdu _ _ _ _ => true
+    match o with RoTx _ _ _ _ _ _ => true | RoNack _ _ _ _ _ _ _ => true | RoNackNoPdu _ _ _ _ => true
                | _ => false end.
 
   Lemma rt_sched_from_filter : forall left c,
     filter rt_is_tx_nack (rt_sched_from left c) =
-    map (fun j => RoTx (rt_sched_time j) u s b) (seq (S c) left) ++
+    map (fun j => RoTx (rt_sched_time j) u s b (Z.of_nat j) T) (seq (S c) left) ++
     [RoNack (rt_sched_time (S (c + left))) u s rt_NACK_TOO_MANY_RETRIES m mx mx].
   Proof.
     induction left as [|l IH]; intros c; cbn [rt_sched_from].
@@ -504,7 +504,7 @@ Theorem rt_schedule : forall t0 base0 k s m b cfg r fuel,
   let (st1, o1) := rt_send (rt_mk_state t0 base0 [] k) s m b cfg r in
   let (st2, o2) := rt_punctual fuel st1 in
   filter rt_is_tx_nack (o1 ++ o2) =
-    map (fun j => RoTx (rt_sched_time t0 T j) k s b) (seq 0 (S (Z.to_nat mx))) ++
+    map (fun j => RoTx (rt_sched_time t0 T j) k s b (Z.of_nat j) T) (seq 0 (S (Z.to_nat mx))) ++
     [RoNack (rt_sched_time t0 T (S (Z.to_nat mx))) k s rt_NACK_TOO_MANY_RETRIES m mx mx] /\
   rs_q st2 = [] /\ rs_now st2 = rt_sched_time t0 T (S (Z.to_nat mx)) /\
   (exists o', o2 = o' ++ [RoWait (rs_now st2) 0 (-1)]).
